@@ -3,6 +3,8 @@
 # 1. confirm in a scratch worktree: demo passes without the change, fails with it, test suite passes with it
 # 2. apply to /repo, run the check(s), revert.  Prints a one-line verdict per check.
 PID=$1; DIR=$2; shift 2; EXTRA="$@"
+# a background `vp run` reads /repo's working tree too: a mutation applied here would be reported there as a violation
+if vp runs 2>/dev/null | grep -q "running"; then echo "WARNING: a background vp run is active; it will see this mutation of /repo"; fi
 WT=/tmp/confirm_$$
 set -u
 git -C /repo worktree add -q $WT HEAD || exit 2
